@@ -33,6 +33,33 @@ CHECKS = {
             "updates, objective replacement and get_values are read back from HiGHS; random call histories are mirrored in a shadow model "
             "whose exact optimum comes from z3. Exhaustive over the listed grids, sampled over histories.",
             "admissibility read literally from the helper docstrings; within one batch a variable receives one kind of queued request with one value (possibly repeated) so that the requested bounds are unambiguous; " + TRUST, "DESIGN.md 4/C12"),
+    "C01": ("exploration", "class-level runtime monitor (wrappers on __init__/get_solution of all model classes) + route oracle over the constructor snapshot",
+            "Every model instance created while the workload runs - including the inner k-models built by the Min* wrappers - has its "
+            "get_solution() result judged against the graph that instance was given: nodes/edges of the caller's graph, legal endpoints, "
+            "simple paths for DAG models, one non-negative weight/slack per route, count <= k (== k where the statement demands it). The "
+            "workload covers all 12 exported classes, NumPathsOptimization, minimal subclasses of both abstract models with random linear "
+            "objectives, random feature mixes and a fixed corpus of hard shapes (one-node graphs, nodes named like synthetic/expanded nodes, "
+            "sources inside cycles, start==end).",
+            "models that are rejected or unsolved (10 s solver limit in this check) yield no observation; " + TRUST, "DESIGN.md 4/C01"),
+    "C02": ("exploration", "runtime monitor on get_solution of the four flow-decomposition classes + per-element recomputation oracle",
+            "For every solved k-/minimum flow decomposition (DAG and cyclic, edge and node weighted, int / dyadic / decimal floats, with "
+            "ignored elements carrying garbage or no value, constraints, and option sets that force the greedy, MILP and given-weights "
+            "routes) the weighted traversal counts of the returned routes are recomputed for every non-ignored element and compared with "
+            "the input flow (exact for int, 1e-6 relative for float); weight types are checked.",
+            "only solved models are judged; " + TRUST, "DESIGN.md 4/C02"),
+    "C03": ("exploration", "runtime monitor on MinFlowDecomp.solve/get_solution + exact z3 minimum over all source-to-sink paths",
+            "MinFlowDecomp is run on planted positive conserving flows (random and corpus DAGs down to a single edge, stars, optimum=|E|, "
+            "node-weighted, constraints with coverage, ignored elements, every lower-bound option incl. min-gen-set, subgraph scanning with a "
+            "small window, guessed weights) and must be solved with exactly the z3 minimum number of paths (exhaustive reference over all "
+            "paths => equality); the computed lower bound must not exceed that minimum.",
+            "graphs <= 13 edges; floats dyadic; " + TRUST, "DESIGN.md 4/C03"),
+    "C06": ("exploration", "runtime monitors on the safety functions and on constructed models + avoidance-automaton / z3 oracles + thread-switch stress",
+            "Every safe path/sequence returned by the real functions is decided exactly by a product automaton (graph x greedy subsequence "
+            "matcher): unsafe iff some source-to-sink walk through a trusted item avoids it; sequences assigned to different slots are decided "
+            "by a two-matcher product; every pruned layer-edge by an automaton with a used-edge flag; flow-safe paths by z3 feasibility of a "
+            "decomposition avoiding the path. DAG functions additionally run with 1/2/4/8 threads under a 1e-6 switch interval and are "
+            "compared with the single-thread result. Thorough: all digraphs on 3 inner nodes (self-loops) and 4 inner nodes.",
+            "X contains only edges of the caller's graph; flow-safety judged against real-weighted decompositions; " + TRUST, "DESIGN.md 4/C06"),
 }
 
 NOT_YET = {}
